@@ -60,12 +60,22 @@ class RoutingProblem:
         """ The initial loading of vehicles when leaving depot """
         return self.vrptw.initial_loading
 
+    def _problem_changed(self):
+        """
+        Called whenever the problem data are changed through this object.
+        Formulations that keep what they have built from the data (variable
+        enumeration, objective, constraints) override this to discard it.
+        """
+        return
+
     def set_vehicle_cap(self, vehicle_cap):
         """ Set the capacity of the vehicles """
+        self._problem_changed()
         return self.vrptw.set_vehicle_cap(vehicle_cap)
 
     def set_initial_loading(self, loading):
         """ Set the load size of vehicles when they leave the depot """
+        self._problem_changed()
         return self.vrptw.set_initial_loading(loading)
 
     def add_node(self, node_name, demand, t_w=(0, np.inf)):
@@ -73,6 +83,7 @@ class RoutingProblem:
         Add a node to the problem,
         with demand level `demand` and time window `t_w`
         """
+        self._problem_changed()
         return self.vrptw.add_node(node_name, demand, t_w)
 
     def get_node_index(self, node_name):
@@ -85,6 +96,7 @@ class RoutingProblem:
 
     def set_depot(self, depot_name):
         """ Set node with name `depot_name` as depot node """
+        self._problem_changed()
         return self.vrptw.set_depot(depot_name)
 
     def add_arc(self, origin_name, destination_name, travel_time, cost=0):
@@ -94,6 +106,7 @@ class RoutingProblem:
         Return:
             added (bool): whether arc was added or not
         """
+        self._problem_changed()
         return self.vrptw.add_arc(origin_name, destination_name, travel_time, cost)
 
     def estimate_max_vehicles(self):
